@@ -304,6 +304,11 @@ func runScenario(sc Scn) Res {
 			closeSrc = func() { pr.Close() }
 		}
 	}
+	if sc.Source == "nestedfast" {
+		// a self-testing source: its first Read runs a complete PeriodDetectFast on its own raw generator
+		// before serving a byte (a workflow nested inside another workflow's read)
+		src = &nestedSource{inner: rd, seed: sc.Stream.Seed}
+	}
 	devSource := sc.Source == "devzero" || sc.Source == "devurandom"
 	if closeSrc != nil {
 		defer closeSrc()
@@ -387,6 +392,20 @@ func runScenario(sc Scn) Res {
 		return res
 	}
 	js := mon.GroupJudged(log.Events)
+	if sc.Source == "nestedfast" {
+		// the nested detection's own samples pass through the same registry: keep only this stream's
+		want := map[uint64]bool{}
+		for j := 0; (j+1)*w.B <= len(stream); j++ {
+			want[mon.Hash64(stream[j*w.B:(j+1)*w.B])] = true
+		}
+		kept := js[:0:0]
+		for _, jd := range js {
+			if want[jd.Hash] {
+				kept = append(kept, jd)
+			}
+		}
+		js = kept
+	}
 	res.Judged = len(js)
 	gids := map[int64]bool{}
 	for _, j := range js {
@@ -981,4 +1000,19 @@ func runConcGroups(groups [][]Scn, label string, race bool) map[int]*Res {
 	os.Remove(inF)
 	os.Remove(outF)
 	return out
+}
+
+// nestedSource runs PeriodDetectFast on a private stream inside its first Read.
+type nestedSource struct {
+	inner io.Reader
+	seed  uint64
+	once  sync.Once
+}
+
+func (n *nestedSource) Read(p []byte) (int, error) {
+	n.once.Do(func() {
+		raw := gen.NewRng(gen.Mix(n.seed, 31337)).Bytes(20 * 2500)
+		_, _ = detect.PeriodDetectFast(bytes.NewReader(raw))
+	})
+	return n.inner.Read(p)
 }
